@@ -223,6 +223,9 @@ WIDGET_PROGRAMS = [
     {"id": "w-arith", "ops": [{"op": "witness", "v": 7, "out": "x"}, {"op": "witness", "v": 11, "out": "y"},
                               {"op": "gate_mul", "q": {"m": 4, "f": 1, "c": -2}, "w": ["x", "y", 0, "x"], "pi": 6, "out": "p"},
                               {"op": "public", "v": 33, "out": "q"}]},
+    {"id": "w-pis", "ops": [{"op": "public", "v": 11, "out": "p"}, {"op": "public", "v": 22, "out": "q"},
+                            {"op": "public", "v": 0, "out": "z"},
+                            {"op": "gate", "q": {"l": 1, "r": 1, "o": -1}, "w": ["p", "q", "p"], "pi": -22}]},
     {"id": "w-range", "ops": [{"op": "witness", "v": 201, "out": "x"}, {"op": "range_bits", "w": "x", "bits": 9}]},
     {"id": "w-logic", "ops": [{"op": "witness", "v": 201, "out": "a"}, {"op": "witness", "v": 77, "out": "b"},
                               {"op": "logic", "a": "a", "b": "b", "pairs": 4, "xor": True, "out": "o"}]},
